@@ -10,6 +10,7 @@ from __future__ import annotations
 import collections
 import inspect
 import json
+import os
 import random
 import typing
 from typing import Any, Dict, List, Optional, Tuple
@@ -316,6 +317,9 @@ def run_case(case: dict) -> Tuple[Optional[str], dict, List[str], Optional[dict]
         obs["out"] = {"raised": "TypeError", "msg": str(e)[:100]}
     except BaseException as e:  # noqa
         obs["out"] = {"raised": wire.exn_name(e)}
+        if os.environ.get("VERIF_DEBUG"):
+            import traceback
+            traceback.print_exc()
     obs["ran"] = len(rec)
     obs["delivered"] = None
     if rec and rec[0][0] == "raw":
